@@ -23,7 +23,16 @@ import (
 	"verif/harness/internal/core"
 )
 
-const root = "/verif"
+// root is the framework directory: the working directory of ./check (normally /verif; a
+// snapshot directory when a campaign runs from a copy).
+var root = func() string {
+	if wd, err := os.Getwd(); err == nil {
+		if _, err := os.Stat(filepath.Join(wd, "harness", "go.mod")); err == nil {
+			return wd
+		}
+	}
+	return "/verif"
+}()
 
 // plan describes how one property is run in one tier.
 type plan struct {
